@@ -58,7 +58,7 @@ CLAIMS = {
          TB + "frequencies are recovered as exact rationals from the int/int floats."),
  "C13": ("For every annotated network (uniform tuple length, annotated end points) each matrix entry is exactly the fraction of that topology's edge ends with own excess a and partner excess b (ejk_value), hence symmetric, summing to 1 and with the stated row sums (ejk_symmetric, ejk_sums_one, ejk_row_sums); every one of any number of successive get_ejks() calls returns the first call's matrices (get_ejks_repeatable, get_ejks_state_independent; second_call_halves is the kernel-checked witness of the pinned behaviour); key halves are listed (excess_keys_cover, split_keys_spec); the overall-degree variant obeys the same law (overall_value/symmetric/sums_one).",
          TB + "float accumulations of 1/E and 0.5/E are mapped back to exact rationals with denominator 2E before comparison."),
- "C14": ("average_value, excess_value/support/sums_one/error_iff, invert_single_value, invert_of_excess and the main theorem invert_excess / invert_excess_nonneg: for every admissible common key and every list of distinct names the inversion returns P conditioned on k != 0; row_sums_are_excess / row_sums_over_matrix; jdd_from_network_value/sums_one. A proof-forced hypothesis (total mass of non-zero keys != 0) is shown necessary by a kernel-checked counterexample with a negative mass.",
+ "C14": ("average_value, excess_value/support/sums_one/error_iff, invert_single_value, invert_of_excess and the main theorem invert_excess / invert_excess_nonneg: for every admissible common key and every list of distinct names the inversion returns P conditioned on k != 0; row_sums_are_excess / row_sums_over_matrix and, for ANY hand-made matrix with distinct 2T-tuple keys over the key list the code computes for itself, row_sums_any_matrix (Properties/C14Matrix.lean); jdd_from_network_value/sums_one. A proof-forced hypothesis (total mass of non-zero keys != 0) is shown necessary by a kernel-checked counterexample with a negative mass.",
          TB + "the static functions run on an exact rational number type; the common key picked by the code is passed to the model, the theorem shows the result does not depend on it."),
  "C18": ("kept_iff / kept_list_form (each edge's fate depends on its own draw only), phi_one_exact, phi_zero (for draws > 0), multiple_of_inv_N, empty_graph_raises, star_counts_kept "
          "(N*S-1 = number of retained edges on a star), on top of a proved specification of the executable reachability (Lemmas/Reach: mem_comp_iff, fuel |V| suffices).",
